@@ -138,7 +138,7 @@ def gen_case(rng, i):
             "strategy": rng.choice(["future", "future", "final", "episode"]), "n_sampled_goal": rng.choice([1, 2, 4, 4, 8, rng.randint(1, 8)]),
             "copy_info": rng.random() < 0.4, "vecnorm": rng.random() < 0.25,
             "obs_kind": rng.choice(["box3", "box22", "discrete"]), "goal_dim": rng.choice([1, 2]), "act_kind": rng.choice(["box", "discrete"])}
-    style = rng.choice(["short", "mixed", "long", "exact"])
+    style = rng.choice(["short", "mixed", "long", "exact", "straddle", "straddle"])
     fresh_goal = [0]
     fresh_obs = [0]
 
@@ -157,6 +157,9 @@ def gen_case(rng, i):
             return rng.randint(cap, 2 * cap + 3)
         if style == "exact":
             return rng.choice([cap, 2 * cap, cap + 1, max(1, cap - 1), 1])
+        if style == "straddle":
+            # lengths just below the capacity: almost every episode wraps the ring end and is overwritten on the next lap
+            return rng.randint(max(1, cap // 2), max(1, cap - 1))
         return rng.randint(1, 2 * cap + 3)
 
     # per env running episode: remaining steps, current obs / achieved / desired tags
@@ -164,6 +167,8 @@ def gen_case(rng, i):
     ops = []
     uid = 0
     n_ops = rng.choice([rng.randint(2, 12), rng.randint(10, 40), rng.randint(30, 90)])
+    if style == "straddle":
+        n_ops = max(n_ops, 4 * cap + 6)            # at least three laps of the ring
     p_obs = rng.choice([0.08, 0.2, 0.35])
     for _ in range(n_ops):
         x = rng.random()
@@ -230,7 +235,7 @@ def run_impl(case):
             rms.mean = rs.uniform(-5, 5, rms.mean.shape)
             rms.var = rs.uniform(0.5, 9, rms.var.shape)
         vn.ret_rms.var = np.float64(4.0)
-    out = {"capacity": int(buf.buffer_size), "her_ratio": float(buf.her_ratio), "obs": []}
+    out = {"capacity": int(buf.buffer_size), "her_ratio": float(buf.her_ratio), "obs": [], "states": []}
     o_rand, o_choice = np.random.randint, np.random.choice
     try:
         for op in case["ops"]:
@@ -256,6 +261,10 @@ def run_impl(case):
                 buf.set_env(venv)
             else:
                 out["obs"].append(observe(buf, case, op, vn, o_rand, o_choice))
+            if op["op"] != "obs":
+                # what the buffer considers sampleable right now: (slot, env, ep_start, ep_length) of every cell with ep_length > 0
+                vi, ve = np.nonzero(buf.ep_length > 0)
+                out["states"].append([[int(i), int(e), int(buf.ep_start[i, e]), int(buf.ep_length[i, e])] for i, e in zip(vi, ve)])
     finally:
         np.random.randint, np.random.choice = o_rand, o_choice
     return out
@@ -392,6 +401,38 @@ def oracle(case, impl):
     for p in impl.get("problems", []):
         probs.append(("oracle-pickle", p))
     it = iter(impl["obs"])
+    states = iter(impl.get("states", []))
+    slot_truth = [dict() for _ in range(n)]     # per env: slot -> record of the transition stored there now
+
+    def check_segments(cells, when):
+        """every cell the buffer considers sampleable must lie in a segment ep_start .. ep_start+ep_length-1 (mod cap)
+        whose slots ALL still hold consecutive transitions of one finished episode (none overwritten since)"""
+        for i, e, st_, ln_ in cells:
+            here = slot_truth[e].get(i)
+            where = f"{when}: cell (slot {i}, env {e}) with ep_start {st_}, ep_length {ln_}"
+            if here is None:
+                probs.append(("oracle-sampleable-slot-never-written", f"{where} has never been written"))
+                return
+            if not here["finished"]:
+                probs.append(("oracle-sampleable-slot-of-unfinished-episode", f"{where} holds step {here['t']} of env {e}'s episode {here['ep']}, which has not ended"))
+                return
+            cur = (i - st_) % cap
+            if not (0 < ln_ <= cap and cur < ln_):
+                probs.append(("oracle-sampleable-slot-outside-its-episode", f"{where}: the slot is at position {cur} of a segment of length {ln_} (capacity {cap})"))
+                return
+            for j in range(ln_):
+                q = (st_ + j) % cap
+                r = slot_truth[e].get(q)
+                if r is None or r["eplist"] is not here["eplist"] or r["t"] != here["t"] - cur + j:
+                    got = "nothing" if r is None else f"step {r['t']} of episode {r['ep']}"
+                    probs.append(("oracle-sampleable-slot-of-overwritten-episode",
+                                  f"{where} holds step {here['t']} of episode {here['ep']}; position {j} of that segment (slot {q}) should hold step {here['t'] - cur + j} "
+                                  f"of the same episode but holds {got}: the episode has been (partly) overwritten and is still sampleable"))
+                    return
+            if slot_truth[e][(st_ + ln_ - 1) % cap]["t"] != len(here["eplist"]) - 1:
+                probs.append(("oracle-segment-does-not-end-at-episode-end", f"{where}: the last slot of the segment holds step {slot_truth[e][(st_ + ln_ - 1) % cap]['t']} of an episode of {len(here['eplist'])} steps"))
+                return
+
     for op in case["ops"]:
         if op["op"] == "add":
             for e, t in enumerate(op["row"]):
@@ -401,12 +442,14 @@ def oracle(case, impl):
                 running[e].append(r)
                 by_act[t[6]] = r
                 by_nach[t[4]] = r
+                slot_truth[e][total % cap] = r
                 if t[8]:
                     for x in running[e]:
                         x["finished"] = True
                     running[e] = None
                     ep_no[e] += 1
             total += 1
+            check_segments(next(states, []), f"after add #{total}")
             continue
         if op["op"] == "trunc":
             for e in range(n):
@@ -417,10 +460,13 @@ def oracle(case, impl):
                         x["finished"] = True
                     running[e] = None
                     ep_no[e] += 1
+            check_segments(next(states, []), f"after truncate_last_trajectory (after add #{total})")
             continue
         if op["op"] == "pickle":
+            check_segments(next(states, []), f"after a pickle round trip (after add #{total})")
             continue
         rec = next(it)
+        check_segments([[c["i"], c["e"], c["st"], c["ln"]] for c in rec["cells"]], f"at an observation point (after add #{total})")
         for p in rec["problems"]:
             probs.append(("oracle-sample-call", p))
 
